@@ -272,7 +272,11 @@ class MapPatch(Unit):
     wall_budget_s = 90
 
     def setup(self, I):
-        keys = loop_keys(raw(MapPacket, 'apply_to_map'), MP_ + 'apply_to_map', kind=ast.For)
+        from .common import reachable_loops
+        from pyvc.values import Unsupported
+        keys = reachable_loops(raw(MapPacket, 'apply_to_map'), MapPacket, kind=ast.For, depth=1)
+        if len(keys) != 1:
+            raise Unsupported('contract does not fit the code any more: apply_to_map has %d pixel loops' % len(keys))
         unit = self
 
         def inv(I_, fr, j):
@@ -352,7 +356,10 @@ def replay_map(rng=None):
             ox, oz = rng.randrange(0, mw - w + 1), rng.randrange(0, mw - h + 1)
             pkt = MapPacket()
             pkt.map_id, pkt.scale, pkt.icons, pkt.width, pkt.height = 5, 1, [], w, h
-            pkt.offset, pkt.pixels = (ox, oz), bytearray(rng.getrandbits(8) for _ in range(w * h))
+            npx = w * h
+            if h and rng.random() < 0.4:
+                npx -= rng.randrange(1, w) if w > 1 else 0       # a last row that is not full: pixel i still lands at (i mod w, i div w)
+            pkt.offset, pkt.pixels = (ox, oz), bytearray(rng.getrandbits(8) for _ in range(npx))
             pkt.is_tracking_position, pkt.is_locked = True, False
             m = MapPacket.Map(5, width=mw, height=mw)
             m.pixels = bytearray(rng.getrandbits(8) for _ in range(mw * mw))
@@ -361,8 +368,9 @@ def replay_map(rng=None):
                 ref[(ox + i % w) + mw * (oz + i // w)] = p
             k, v = native_call(pkt.apply_to_map, m)
             if k != 'ok' or m.pixels != ref:
-                return dict(confirmed=True, n=n, call='%dx%d patch at (%d,%d) on a %d-wide map' % (w, h, ox, oz, mw),
-                            observed='%s; pixels differ from the reference blit' % k)
+                return dict(confirmed=True, n=n, call='%d pixels, %d to a row, at (%d,%d) on a %d-wide map' % (npx, w, ox, oz, mw),
+                            observed='%s; %s' % (k, 'the map now has %d cells instead of %d' % (len(m.pixels), len(ref))
+                                                if len(m.pixels) != len(ref) else 'pixels differ from the reference blit'))
     return dict(confirmed=False, n=n, call='map patches', observed='conform')
 
 
